@@ -409,13 +409,14 @@ type Contract struct {
 	Line     int
 	MayPanic bool
 	Asserts  []Clause // lemma hints: assumed-after-proved facts at function entry
+	Hints    map[string][]Clause // "callee#k" -> facts proved (then assumed) just before that call
 	used     bool
 }
 
 var clauseKeywords = map[string]bool{
 	"func": true, "extern": true, "property": true, "uses": true, "requires": true, "ensures": true,
 	"modifies": true, "decreases": true, "loop": true, "invariant": true, "trusted": true, "pure": true,
-	"maypanic": true, "lemma": true,
+	"maypanic": true, "lemma": true, "hint": true,
 }
 
 // parseContractFile reads //@ lines.
@@ -484,6 +485,21 @@ func parseContractFile(path, pkg, text string) ([]*Contract, error) {
 				return err
 			}
 			cur.Ensures = append(cur.Ensures, c)
+		case "hint":
+			parts := strings.SplitN(body, " ", 2)
+			if len(parts) != 2 {
+				return fmt.Errorf("%s:%d: hint needs a call site and a formula", path, pd.line)
+			}
+			site := parts[0]
+			body = parts[1]
+			c, err := mk()
+			if err != nil {
+				return err
+			}
+			if cur.Hints == nil {
+				cur.Hints = map[string][]Clause{}
+			}
+			cur.Hints[site] = append(cur.Hints[site], c)
 		case "lemma":
 			c, err := mk()
 			if err != nil {
